@@ -7,7 +7,7 @@ from __future__ import annotations
 import itertools
 import random
 
-from edgegraph.structure import Vertex
+from edgegraph.structure import TwoEndedLink, Vertex
 from edgegraph.traversal import helpers
 
 from egverif import graphs, oracles, zoo
@@ -28,9 +28,9 @@ EDGE_ONLY_FILTERS = ("none", "accept", "reject", "tagged_edge", "not_directed")
 def floors(ctx):
     if ctx.tier == "quick":
         return {"rows_single_link": 500, "evaluations": 5000, "corollary_pairs": 500, "equal_but_distinct_end_cases": 500,
-                "graphs_with_former_links": 20}
+                "graphs_with_former_links": 20, "graphs_edited_in_place_with_warm_caches": 200}
     return {"rows_single_link": 500, "evaluations": 50000, "corollary_pairs": 5000, "equal_but_distinct_end_cases": 500,
-            "graphs_with_former_links": 20}
+            "graphs_with_former_links": 20, "graphs_edited_in_place_with_warm_caches": 200}
 
 
 def _pos(link, v):
@@ -162,6 +162,60 @@ def corollary(ctx, g, uname, fname):
                 return
 
 
+def apply_edits(g, edits):
+    """In-place edits through the public API: the table must describe the graph as it IS, whatever it was."""
+    for ed in edits:
+        k = ed[1]
+        if k >= len(g.edges) or not isinstance(g.edges[k], TwoEndedLink) or len(g.edges[k].vertices) != 2:
+            continue
+        e = g.edges[k]
+        if ed[0] == "close":        # re-point one end onto the edge's own other end: a self-loop
+            if ed[2]:
+                e.v2 = e.v1
+            else:
+                e.v1 = e.v2
+        elif ed[0] == "open":       # open a self-loop / move one end to another vertex
+            setattr(e, "v2" if ed[2] else "v1", g.verts[ed[3] % len(g.verts)])
+        elif ed[0] == "swap":
+            a, b = e.v1, e.v2
+            e.v1, e.v2 = b, a
+        elif ed[0] == "same":       # assign an end the vertex it already holds
+            e.v1 = e.v1
+            e.v2 = e.v2
+
+
+def edited_case(ctx, spec, edits, rng_seed):
+    """Warm every cache entry, edit the graph in place, and judge every vertex against the table with caching on."""
+    g = graphs.build(spec)
+    settings = [(d, u, f) for d in DIRS for u in UNKS for f in ("none", "accept", "tagged_edge")]
+    Vertex.NEIGHBOR_CACHING = True
+    try:
+        for v in g.verts:
+            for d, u, f in settings:
+                oracles.outcome(helpers.neighbors, v, DIRS[d], UNKS[u], zoo.NB_FILTERS[f])
+        apply_edits(g, edits)
+    finally:
+        Vertex.NEIGHBOR_CACHING = False
+    ctx.count("graphs_edited_in_place_with_warm_caches")
+    r = random.Random(rng_seed)
+    for vi in range(len(g.verts)):
+        for d, u, f in r.sample(settings, 9):
+            Vertex.NEIGHBOR_CACHING = True
+            try:
+                got = oracles.outcome(helpers.neighbors, g.verts[vi], DIRS[d], UNKS[u], zoo.NB_FILTERS[f])
+            finally:
+                Vertex.NEIGHBOR_CACHING = False
+            exp = oracles.table_neighbors(g.verts[vi], DIRS[d], UNKS[u], zoo.NB_FILTERS[f])
+            ctx.evaluated()
+            if not oracles.matches(exp, got):
+                ctx.violation(f"table_after_edit:{d}:{u}:{'+'.join(sorted({e[0] for e in edits}))}",
+                              f"after in-place edits {edits} (caches warm, caching on) neighbors(v{vi}, {d}, {u}, filter={f}) "
+                              f"returned {_show(g, got)}; the table expects {_show(g, exp)}; links at v{vi}: "
+                              f"{[(type(l).__name__, g.names(l.vertices)) for l in g.verts[vi].links]}",
+                              {"kind": "edited", "spec": spec, "edits": edits, "rseed": rng_seed})
+                return
+
+
 def single_and_double_specs():
     classes = list(graphs._ECLS)
     placements = [(0, 1), (1, 0), (0, 0)]  # v0 is origin / destination / both
@@ -190,7 +244,7 @@ def run(ctx):
         for spec in twin_specs():
             g = graphs.build(spec)
             for vi in range(3):
-                for dname in DIRS:
+                for dname in oracles.DIR_NAMES:
                     for uname in UNKS:
                         for fname in ("none", "tagged_edge", "reject"):
                             check_vertex(ctx, g, vi, dname, uname, fname, cache=False)
@@ -201,7 +255,7 @@ def run(ctx):
             continue
         g = graphs.build(spec)
         two = len(spec["edges"]) == 2
-        for dname in DIRS:
+        for dname in oracles.DIR_NAMES:
             for uname in UNKS:
                 fl = filters if not two else ("none", "reject", "tagged_edge", "even_vertex")
                 for fname in fl:
@@ -221,13 +275,22 @@ def run(ctx):
         for f in graphs.features(spec):
             ctx.count("graphs_with_" + f)
         for vi in range(len(g.verts)):
-            for dname in DIRS:
+            for dname in oracles.DIR_NAMES:
                 for uname in UNKS:
                     for fname in filters:
                         check_vertex(ctx, g, vi, dname, uname, fname, cache=rng.random() < 0.3)
         for uname in UNKS:
             for fname in EDGE_ONLY_FILTERS:
                 corollary(ctx, g, uname, fname)
+    # ---- part 3: the table after in-place edits on warm caches ---------------
+    for n in range(300 if ctx.tier == "quick" else 1500):
+        spec = graphs.rand_spec(rng, nmax=5, mmax=8, uni_mode="none", ecls=graphs.ECLS_ALL, self_p=0.25)
+        if not spec["edges"]:
+            continue
+        spec.pop("edges_gone", None)
+        edits = [[rng.choice(["close", "close", "open", "swap", "same"]), rng.randrange(len(spec["edges"])),
+                  rng.random() < 0.5, rng.randrange(5)] for _ in range(rng.randint(1, 3))]
+        edited_case(ctx, spec, edits, rng.randrange(10 ** 6))
     ctx.sample({"spec": {"verts": ["Vertex", "VSub"], "edges": [["OtherLink", 0, 1, 1]], "uni": None},
                 "checked": "v0 x 3 directions x 3 unknown modes x 7 filters (one of 48 single-link + 576 two-link tables)"})
     ctx.assumptions += [
@@ -239,7 +302,9 @@ def run(ctx):
 
 def replay(ctx, case):
     g = graphs.build(case["spec"])
-    if case["kind"] == "vertex":
+    if case["kind"] == "edited":
+        edited_case(ctx, case["spec"], case["edits"], case["rseed"])
+    elif case["kind"] == "vertex":
         check_vertex(ctx, g, case["v"], case["dir"], case["unk"], case["filt"], case["cache"])
     else:
         corollary(ctx, g, case["unk"], case["filt"])
